@@ -107,6 +107,13 @@ CLAIMED = {
         text="All strings of length <= 3 over the 25-character punctuator alphabet (plus 10 % of length 4 per seed; all 406 900 in thorough), every keyword spelling of C11/C23/GNU alternates with all one-character "
              "perturbations (also hook-free through acceptance of `int <word> = 1;`), and generated texts of all token classes with comments and every single-splice variant are tokenised identically by cproc and clex.py.",
         note="clex.py is the oracle (written from C11 6.4; digraphs are documented as not implemented and excluded); hook H1 is trusted to print what next() returns, cross-checked hook-free for keywords."),
+    "C11": dict(
+        category="exploration", design_ref="DESIGN.md 3/C11",
+        engine="hypothesis",
+        technique="model-based property testing: generated programs decorated with line markers, #line, splices, multi-line comments and invocations; the location in cproc's diagnostic is compared with a presumed-location tracker written from C11 6.10.4, cross-checked per case against gcc's location",
+        text="One catalogue violation is placed on known physical line(s) of a decorated valid program; the first diagnostic must have the form file:line:col: error: and name the presumed file and one of the "
+             "presumed lines the construct occupies. Cases where gcc's reported location disagrees with the tracker are discarded.",
+        note="Only constructs whose diagnostic is raised at one of their own tokens are used; one recorded finding (file-scope object of incomplete type diagnosed at end of unit) is replayed separately."),
 }
 
 NOT_YET = "check not built yet in this round (planned per DESIGN.md section 10); no claim is made"
